@@ -1,5 +1,6 @@
 from harness.props import _hier
 LEVEL = _hier.LEVEL
+EXTRA_PROPS_FILES = ["Scfg/Props/C05Join.lean"]
 
 
 def run(ctx):
